@@ -45,6 +45,7 @@ import (
 
 type c20_bn254 struct {
 	doms map[int]*fft_bn254.Domain
+	pool *poly_bn254.Pool // lives as long as the process (mleval mode 2)
 }
 
 func init() { c20register(&c20_bn254{doms: map[int]*fft_bn254.Domain{}}) }
@@ -475,7 +476,13 @@ func (c *c20_bn254) Poly(op string, a []string) string {
 		x := c.el(a[1])
 		return c.hex(p.Eval(&x))
 	case "interp":
-		return c.show(poly_bn254.InterpolateOnRange(c.vec(a[0])))
+		res := poly_bn254.InterpolateOnRange(c.vec(a[0]))
+		s := c.show(res)
+		// the returned polynomial belongs to the caller: overwriting it must not influence later calls
+		for i := range res {
+			res[i].SetUint64(uint64(0xdead00 + i))
+		}
+		return s
 	case "padd", "psub":
 		mode := a[0]
 		p := poly_bn254.Polynomial(c.vec(a[1]))
@@ -542,6 +549,15 @@ func (c *c20_bn254) Poly(op string, a []string) string {
 		if a[0] == "1" {
 			pool := poly_bn254.NewPool(8, 256)
 			res = m.Evaluate(c.vec(a[2]), &pool)
+		} else if a[0] == "2" {
+			c20mu.Lock()
+			if c.pool == nil {
+				pool := poly_bn254.NewPool(8, 256)
+				c.pool = &pool
+			}
+			pool := c.pool
+			c20mu.Unlock()
+			res = m.Evaluate(c.vec(a[2]), pool)
 		} else {
 			res = m.Evaluate(c.vec(a[2]), nil)
 		}
@@ -568,6 +584,7 @@ func (c *c20_bn254) Poly(op string, a []string) string {
 
 type c20_bls12377 struct {
 	doms map[int]*fft_bls12377.Domain
+	pool *poly_bls12377.Pool // lives as long as the process (mleval mode 2)
 }
 
 func init() { c20register(&c20_bls12377{doms: map[int]*fft_bls12377.Domain{}}) }
@@ -998,7 +1015,13 @@ func (c *c20_bls12377) Poly(op string, a []string) string {
 		x := c.el(a[1])
 		return c.hex(p.Eval(&x))
 	case "interp":
-		return c.show(poly_bls12377.InterpolateOnRange(c.vec(a[0])))
+		res := poly_bls12377.InterpolateOnRange(c.vec(a[0]))
+		s := c.show(res)
+		// the returned polynomial belongs to the caller: overwriting it must not influence later calls
+		for i := range res {
+			res[i].SetUint64(uint64(0xdead00 + i))
+		}
+		return s
 	case "padd", "psub":
 		mode := a[0]
 		p := poly_bls12377.Polynomial(c.vec(a[1]))
@@ -1065,6 +1088,15 @@ func (c *c20_bls12377) Poly(op string, a []string) string {
 		if a[0] == "1" {
 			pool := poly_bls12377.NewPool(8, 256)
 			res = m.Evaluate(c.vec(a[2]), &pool)
+		} else if a[0] == "2" {
+			c20mu.Lock()
+			if c.pool == nil {
+				pool := poly_bls12377.NewPool(8, 256)
+				c.pool = &pool
+			}
+			pool := c.pool
+			c20mu.Unlock()
+			res = m.Evaluate(c.vec(a[2]), pool)
 		} else {
 			res = m.Evaluate(c.vec(a[2]), nil)
 		}
@@ -1091,6 +1123,7 @@ func (c *c20_bls12377) Poly(op string, a []string) string {
 
 type c20_bls12381 struct {
 	doms map[int]*fft_bls12381.Domain
+	pool *poly_bls12381.Pool // lives as long as the process (mleval mode 2)
 }
 
 func init() { c20register(&c20_bls12381{doms: map[int]*fft_bls12381.Domain{}}) }
@@ -1521,7 +1554,13 @@ func (c *c20_bls12381) Poly(op string, a []string) string {
 		x := c.el(a[1])
 		return c.hex(p.Eval(&x))
 	case "interp":
-		return c.show(poly_bls12381.InterpolateOnRange(c.vec(a[0])))
+		res := poly_bls12381.InterpolateOnRange(c.vec(a[0]))
+		s := c.show(res)
+		// the returned polynomial belongs to the caller: overwriting it must not influence later calls
+		for i := range res {
+			res[i].SetUint64(uint64(0xdead00 + i))
+		}
+		return s
 	case "padd", "psub":
 		mode := a[0]
 		p := poly_bls12381.Polynomial(c.vec(a[1]))
@@ -1588,6 +1627,15 @@ func (c *c20_bls12381) Poly(op string, a []string) string {
 		if a[0] == "1" {
 			pool := poly_bls12381.NewPool(8, 256)
 			res = m.Evaluate(c.vec(a[2]), &pool)
+		} else if a[0] == "2" {
+			c20mu.Lock()
+			if c.pool == nil {
+				pool := poly_bls12381.NewPool(8, 256)
+				c.pool = &pool
+			}
+			pool := c.pool
+			c20mu.Unlock()
+			res = m.Evaluate(c.vec(a[2]), pool)
 		} else {
 			res = m.Evaluate(c.vec(a[2]), nil)
 		}
@@ -1614,6 +1662,7 @@ func (c *c20_bls12381) Poly(op string, a []string) string {
 
 type c20_bls24315 struct {
 	doms map[int]*fft_bls24315.Domain
+	pool *poly_bls24315.Pool // lives as long as the process (mleval mode 2)
 }
 
 func init() { c20register(&c20_bls24315{doms: map[int]*fft_bls24315.Domain{}}) }
@@ -2044,7 +2093,13 @@ func (c *c20_bls24315) Poly(op string, a []string) string {
 		x := c.el(a[1])
 		return c.hex(p.Eval(&x))
 	case "interp":
-		return c.show(poly_bls24315.InterpolateOnRange(c.vec(a[0])))
+		res := poly_bls24315.InterpolateOnRange(c.vec(a[0]))
+		s := c.show(res)
+		// the returned polynomial belongs to the caller: overwriting it must not influence later calls
+		for i := range res {
+			res[i].SetUint64(uint64(0xdead00 + i))
+		}
+		return s
 	case "padd", "psub":
 		mode := a[0]
 		p := poly_bls24315.Polynomial(c.vec(a[1]))
@@ -2111,6 +2166,15 @@ func (c *c20_bls24315) Poly(op string, a []string) string {
 		if a[0] == "1" {
 			pool := poly_bls24315.NewPool(8, 256)
 			res = m.Evaluate(c.vec(a[2]), &pool)
+		} else if a[0] == "2" {
+			c20mu.Lock()
+			if c.pool == nil {
+				pool := poly_bls24315.NewPool(8, 256)
+				c.pool = &pool
+			}
+			pool := c.pool
+			c20mu.Unlock()
+			res = m.Evaluate(c.vec(a[2]), pool)
 		} else {
 			res = m.Evaluate(c.vec(a[2]), nil)
 		}
@@ -2137,6 +2201,7 @@ func (c *c20_bls24315) Poly(op string, a []string) string {
 
 type c20_bls24317 struct {
 	doms map[int]*fft_bls24317.Domain
+	pool *poly_bls24317.Pool // lives as long as the process (mleval mode 2)
 }
 
 func init() { c20register(&c20_bls24317{doms: map[int]*fft_bls24317.Domain{}}) }
@@ -2567,7 +2632,13 @@ func (c *c20_bls24317) Poly(op string, a []string) string {
 		x := c.el(a[1])
 		return c.hex(p.Eval(&x))
 	case "interp":
-		return c.show(poly_bls24317.InterpolateOnRange(c.vec(a[0])))
+		res := poly_bls24317.InterpolateOnRange(c.vec(a[0]))
+		s := c.show(res)
+		// the returned polynomial belongs to the caller: overwriting it must not influence later calls
+		for i := range res {
+			res[i].SetUint64(uint64(0xdead00 + i))
+		}
+		return s
 	case "padd", "psub":
 		mode := a[0]
 		p := poly_bls24317.Polynomial(c.vec(a[1]))
@@ -2634,6 +2705,15 @@ func (c *c20_bls24317) Poly(op string, a []string) string {
 		if a[0] == "1" {
 			pool := poly_bls24317.NewPool(8, 256)
 			res = m.Evaluate(c.vec(a[2]), &pool)
+		} else if a[0] == "2" {
+			c20mu.Lock()
+			if c.pool == nil {
+				pool := poly_bls24317.NewPool(8, 256)
+				c.pool = &pool
+			}
+			pool := c.pool
+			c20mu.Unlock()
+			res = m.Evaluate(c.vec(a[2]), pool)
 		} else {
 			res = m.Evaluate(c.vec(a[2]), nil)
 		}
@@ -2660,6 +2740,7 @@ func (c *c20_bls24317) Poly(op string, a []string) string {
 
 type c20_bw6633 struct {
 	doms map[int]*fft_bw6633.Domain
+	pool *poly_bw6633.Pool // lives as long as the process (mleval mode 2)
 }
 
 func init() { c20register(&c20_bw6633{doms: map[int]*fft_bw6633.Domain{}}) }
@@ -3090,7 +3171,13 @@ func (c *c20_bw6633) Poly(op string, a []string) string {
 		x := c.el(a[1])
 		return c.hex(p.Eval(&x))
 	case "interp":
-		return c.show(poly_bw6633.InterpolateOnRange(c.vec(a[0])))
+		res := poly_bw6633.InterpolateOnRange(c.vec(a[0]))
+		s := c.show(res)
+		// the returned polynomial belongs to the caller: overwriting it must not influence later calls
+		for i := range res {
+			res[i].SetUint64(uint64(0xdead00 + i))
+		}
+		return s
 	case "padd", "psub":
 		mode := a[0]
 		p := poly_bw6633.Polynomial(c.vec(a[1]))
@@ -3157,6 +3244,15 @@ func (c *c20_bw6633) Poly(op string, a []string) string {
 		if a[0] == "1" {
 			pool := poly_bw6633.NewPool(8, 256)
 			res = m.Evaluate(c.vec(a[2]), &pool)
+		} else if a[0] == "2" {
+			c20mu.Lock()
+			if c.pool == nil {
+				pool := poly_bw6633.NewPool(8, 256)
+				c.pool = &pool
+			}
+			pool := c.pool
+			c20mu.Unlock()
+			res = m.Evaluate(c.vec(a[2]), pool)
 		} else {
 			res = m.Evaluate(c.vec(a[2]), nil)
 		}
@@ -3183,6 +3279,7 @@ func (c *c20_bw6633) Poly(op string, a []string) string {
 
 type c20_bw6761 struct {
 	doms map[int]*fft_bw6761.Domain
+	pool *poly_bw6761.Pool // lives as long as the process (mleval mode 2)
 }
 
 func init() { c20register(&c20_bw6761{doms: map[int]*fft_bw6761.Domain{}}) }
@@ -3613,7 +3710,13 @@ func (c *c20_bw6761) Poly(op string, a []string) string {
 		x := c.el(a[1])
 		return c.hex(p.Eval(&x))
 	case "interp":
-		return c.show(poly_bw6761.InterpolateOnRange(c.vec(a[0])))
+		res := poly_bw6761.InterpolateOnRange(c.vec(a[0]))
+		s := c.show(res)
+		// the returned polynomial belongs to the caller: overwriting it must not influence later calls
+		for i := range res {
+			res[i].SetUint64(uint64(0xdead00 + i))
+		}
+		return s
 	case "padd", "psub":
 		mode := a[0]
 		p := poly_bw6761.Polynomial(c.vec(a[1]))
@@ -3680,6 +3783,15 @@ func (c *c20_bw6761) Poly(op string, a []string) string {
 		if a[0] == "1" {
 			pool := poly_bw6761.NewPool(8, 256)
 			res = m.Evaluate(c.vec(a[2]), &pool)
+		} else if a[0] == "2" {
+			c20mu.Lock()
+			if c.pool == nil {
+				pool := poly_bw6761.NewPool(8, 256)
+				c.pool = &pool
+			}
+			pool := c.pool
+			c20mu.Unlock()
+			res = m.Evaluate(c.vec(a[2]), pool)
 		} else {
 			res = m.Evaluate(c.vec(a[2]), nil)
 		}
